@@ -51,7 +51,7 @@ def gen_cases(tier, seed):
                 js = list(range(na)) if (fam == "thermo" or tier != "quick") else [j for j in range(na) if (i + j) % 3 == 0 or abs(i - j) < 6]
                 yield {"kind": "pairs", "family": fam, "i": i, "js": js, "source": src, "seed": r.randrange(1 << 30), "cold": k % 2 == 1}
     for i in range(n):
-        yield {"kind": "history", "seed": r.randrange(1 << 30), "source": ["synthetic", "synthetic", "n77", "model", "co2", "modelpa", "origin"][i % 7], "length": r.randint(2, 10), "heavy": i % 8 == 0}
+        yield {"kind": "history", "seed": r.randrange(1 << 30), "source": ["synthetic", "synthetic", "n77", "model", "co2", "modelpa", "origin", "shortdes"][i % 8], "length": r.randint(2, 10), "heavy": i % 8 == 0}
 
 
 def run_case(case, ctx):
@@ -176,6 +176,16 @@ def _origin(seed):
     return pygaps.PointIsotherm(pressure=list(p), loading=list(n), branch="ads", material="verif-c04-origin", adsorbate="methane", **dict(gen.DEFAULT_UNITS, **gen.temp_kw(150.0, celsius=False)))
 
 
+def _shortdes(seed):
+    """Adsorption branch plus a desorption branch of two points only (a quick reversibility check at the end of a run)."""
+    import pygaps
+    p = numpy.linspace(0.2, 6.0, 14)
+    K = 0.6 + (seed % 4) * 0.2
+    n = 5.0 * K * p / (1 + K * p)
+    pp, nn = list(p) + [4.0, 2.0], list(n) + [5.0 * K * 4.0 / (1 + K * 4.0) * 1.03, 5.0 * K * 2.0 / (1 + K * 2.0) * 1.05]
+    return pygaps.PointIsotherm(pressure=pp, loading=nn, branch=[False] * 14 + [True] * 2, material="verif-c04-sd", adsorbate="methane", **dict(gen.DEFAULT_UNITS, **gen.temp_kw(150.0, celsius=False)))
+
+
 def _co2(seed):
     """An absolute-pressure isotherm of a subcritical adsorbate (for Whittaker / IAST / Henry)."""
     import pygaps
@@ -249,7 +259,7 @@ def fresh_environment(*isos):
 
 
 def make_object(source, seed):
-    return {"synthetic": lambda: _synthetic(seed, seed), "n77": lambda: _n77(seed), "model": lambda: _model(seed), "co2": lambda: _co2(seed), "modelpa": lambda: _model_pa(seed), "origin": lambda: _origin(seed)}[source]()
+    return {"synthetic": lambda: _synthetic(seed, seed), "n77": lambda: _n77(seed), "model": lambda: _model(seed), "co2": lambda: _co2(seed), "modelpa": lambda: _model_pa(seed), "origin": lambda: _origin(seed), "shortdes": lambda: _shortdes(seed)}[source]()
 
 
 # ------------------------------------------------------------------ fingerprint
@@ -497,6 +507,8 @@ def make_query(r, source, heavy, seed):
         pool += ["whittaker", "whittaker", "model_iso", "iast", "iast", "henry", "isosteric", "isosteric"]
     if source == "model":
         pool = ["loading_at", "pressure_at", "spreading", "export", "iast", "adsorbate"]
+    if source == "shortdes":
+        pool = ["model_iso", "model_iso", "model_iso", "accessors", "loading_at", "export"]
     if source == "origin":
         pool = ["accessors", "loading_at", "pressure_at", "spreading", "spreading", "spreading", "export", "model_iso", "henry", "iast"]
     if source == "modelpa":
@@ -557,6 +569,15 @@ def _outcome(fn, *a):
 _NUMPY_DEFAULT = dict(divide="warn", over="warn", under="ignore", invalid="warn")
 
 
+def module_state():
+    """Module-level state of the library that a read-only call has no business changing: the lists of known / guessable / IAST models
+    and the session registries of materials and adsorbates."""
+    import pygaps
+    import pygaps.modelling as pm
+    return {"_MODELS": tuple(pm._MODELS), "_GUESS_MODELS": tuple(pm._GUESS_MODELS), "_IAST_MODELS": tuple(pm._IAST_MODELS),
+            "MATERIAL_LIST": tuple(str(m) for m in pygaps.MATERIAL_LIST), "ADSORBATE_LIST": len(pygaps.ADSORBATE_LIST)}
+
+
 def same_value(a, b):
     if isinstance(a, dict) and isinstance(b, dict):
         return set(a) == set(b) and all(same_value(a[k], b[k]) for k in a)
@@ -611,8 +632,17 @@ def _run_history(case, ctx):
         fps = [fingerprint(x) for x in args]
         state_before = explain(obj)
         err_before = numpy.geterr()
+        mod_before = module_state()
         got = _outcome(q, *args)
         fps_after = [fingerprint(x) for x in args]
+        mod_after = module_state()
+        if mod_after != mod_before:
+            ctx.violation("%s/changes-module-level-state" % name.split("(")[0], "a read-only call changed module-level state of the library (model lists / session registries)", query=name,
+                          changed={k: [mod_before[k], mod_after[k]] for k in mod_before if mod_before[k] != mod_after[k]}, history=trail[-6:], source=source)
+            import pygaps.modelling as _pm
+            _pm._GUESS_MODELS[:] = list(mod_before["_GUESS_MODELS"])
+            _pm._MODELS[:] = list(mod_before["_MODELS"])
+            _pm._IAST_MODELS[:] = list(mod_before["_IAST_MODELS"])
         if numpy.geterr() != err_before:
             ctx.violation("%s/changes-global-numerical-error-mode" % name.split("(")[0], "a read-only call left numpy's floating point error mode changed for the whole process", query=name, before=err_before,
                           after=numpy.geterr(), history=trail[-6:], source=source)
